@@ -21,6 +21,9 @@ class Clause:
     fn: Callable[["Ctx"], Any]
     # intermediate assertions: each is first proved as its own obligation, then available to the main goal
     hints: Callable[["Ctx"], list] | None = None
+    # instances of laws of spec/laws.py (built with spec.laws.instance): available to the goal without proof --
+    # their status is that of the law (listed in the evidence)
+    lemmas: Callable[["Ctx"], list] | None = None
 
 
 @dataclasses.dataclass
@@ -60,8 +63,9 @@ class Contract:
         self.requires.append(Clause(label, fn))
         return self
 
-    def ens(self, label: str, fn: Callable[["Ctx"], Any], hints: Callable[["Ctx"], list] | None = None) -> "Contract":
-        self.ensures.append(Clause(label, fn, hints))
+    def ens(self, label: str, fn: Callable[["Ctx"], Any], hints: Callable[["Ctx"], list] | None = None,
+            lemmas: Callable[["Ctx"], list] | None = None) -> "Contract":
+        self.ensures.append(Clause(label, fn, hints, lemmas))
         return self
 
     def exc_ens(self, label: str, fn: Callable[["Ctx"], Any]) -> "Contract":
